@@ -76,12 +76,16 @@ PROPS = {
         explanation='Read side: the parsers use the source only through read_exact / read_to_end / Take::read_to_end whose contracts mention the remaining stream content, never its chunking, so parse is a function of the byte string and inputs shorter than lead+two intros are Err (postconditions of PackageMetadata::parse / Package::parse). Write side: for ANY sink obeying the Write contract (universally quantified VWrite), every serialiser (intro, index entry, header, signature header + padding, lead, metadata, package) returns Ok only after the sink accepted exactly the canonical bytes and Err only after a prefix of them; proved on the verbatim bodies, unbounded in entries/store/payload.',
     ),
     'C15': dict(
-        level='proof', verus=[],
-        trusted_base=[A_TOOLS],
-        assumptions=['claimed for ONE sentence only: "every compression type parses back from its own textual name". EVR / NEVRA round trip and no-panic on arbitrary text are &str algorithms (split/find/rfind with closures): not decidable by Verus (no specs) or Kani (did not terminate on 2-byte strings) - not claimed',
-                     'the names are the literals of the Display impl ("none", "gzip", "zstd", "xz", "bzip2"); Display itself goes through core::fmt and is not executed by the harness'],
-        explanation='Loop-free Kani harness over all five CompressionType values: from_str(name(c)) == Ok(c). Complete for that sentence.',
-        technique='contract-based: Kani harness over the complete 5-value domain on the real FromStr impl',
+        level='proof', verus=['c15_nevra'],
+        trusted_base=[A_TOOLS, A_EXTRACT,
+                      'A-STR: str::split_once(char) / rsplit_once(char) with their documented meaning (None iff the char does not occur; else the text before and after its FIRST / LAST occurrence), stated as contracts of two helper functions the calls are rewritten to (R28)',
+                      'A-FMT: write!/format! with a literal format string write the literal pieces and the Display text of the arguments in order (R29: a formatter stand-in that appends text); String and &str display as their text'],
+        assumptions=['well-formedness of the components is the property\'s "values a real package can carry", made explicit: epoch, version and release contain neither "-" nor ":", the architecture neither "-" nor "."; the NAME is unrestricted (it may contain "-", "." and ":"); all components may be empty',
+                     'no-panic on arbitrary text: Evr::parse_values and Nevra::parse_values are verified without any precondition, and nothing in them can panic (split helpers and unwrap_or only); Evr::parse / Nevra::parse add only the Cow conversions (not in the unit)',
+                     'the names of the compression types: loop-free Kani harness over all five values on the real FromStr impl (Display goes through core::fmt and is not executed by the harness; the names are the literals of the Display impl)',
+                     "R5: Cow<'a, str> fields are modelled as String (only their text is used)"],
+        explanation='Verbatim bodies of Evr::parse_values, Nevra::parse_values, both Display::fmt impls and both as_normalized_form functions. Display writes exactly "[epoch:]version-release" resp. "name-[epoch:]version-release.arch"; parse_values returns, for EVERY text that is the textual form of well-formed components, exactly those components (uniqueness of the first / last split, lemmas by index reasoning); c15_evr_roundtrip / c15_nevra_roundtrip compose the two contracts on executable code; the normalised form parses back to an epoch that is the package\'s or "0", never empty. Kani: from_str(name(c)) == Ok(c) for all five compression types.',
+        technique='contract-based deductive verification (Verus) of the parse / format functions against a textual-form spec, plus a Kani harness over the complete 5-value domain of CompressionType',
     ),
     'C16': dict(
         level='proof', verus=['c16_offsets', 'c01_parse', 'c09_from_entries'],
@@ -135,6 +139,7 @@ FIX_COMMITS = [
     '290c9e0 fix: emit the packager and group given to the builder',
     'ea8105c fix: emit the verify scriptlet given to the builder and add its accessor',
     '8440da6 fix: destinations without a file name or a strippable parent are errors, not panics',
+    'ccd6ccb fix: split a NEVRA at its last two dashes so that names may contain dashes',
 ]
 
 PROPS['C06'] = dict(
